@@ -108,7 +108,7 @@ def make(v):
     return handler
 
 
-picked = [make(1), make('s'), make(2.0), make([]), make({}), make(None)][0]
+picked = [make(1), make('s'), make(2.0), make([]), make({}), make(None)][where]
 picked
 make(0j)(1)
 later = make(0j)
@@ -188,18 +188,24 @@ def paren_positions(text):
             for ci, ch in enumerate(ln) if ch == '(']
 
 
-def battery(script, text, methods=PROBE_METHODS, limit=None):
-    out = {}
+def battery_plan(text, methods=PROBE_METHODS, limit=None):
     pos = ident_positions(text)
     if limit:
         pos = pos[:limit] + pos[-limit:]
+    seen = set()
+    for (l, c) in paren_positions(text):      # signature probes first: they are the cheapest
+        yield 'get_signatures@%d:%d' % (l, c), 'get_signatures', l, c   # to starve of budget
     for (l, c, e) in pos:
         for m in methods:
             col = e if m == 'complete' else c
-            out['%s@%d:%d' % (m, l, col)] = query(script, m, l, col)
-    for (l, c) in paren_positions(text):
-        out['get_signatures@%d:%d' % (l, c)] = query(script, 'get_signatures', l, c)
-    return out
+            key = '%s@%d:%d' % (m, l, col)
+            if key not in seen:
+                seen.add(key)
+                yield key, m, l, col
+
+
+def battery(script, text, methods=PROBE_METHODS, limit=None):
+    return {key: query(script, m, l, c) for key, m, l, c in battery_plan(text, methods, limit)}
 
 
 def new_script(text, tag):
@@ -370,7 +376,11 @@ def _do_event(script, ev):
 def _work_rep(task):
     text = task['text']
     events = _events(text)
-    fresh = battery(new_script(text, 'rep%d_fresh' % os.getpid()), text, limit=task['limit'])
+    # reference: every probe asked on its OWN fresh Script (nothing asked before it)
+    keys = list(battery_plan(text, limit=task['limit']))
+    fresh = {}
+    for n, (key, m, l, c) in enumerate(keys):
+        fresh[key] = query(new_script(text, 'rep%d_fresh%d' % (os.getpid(), n)), m, l, c)
     out = {'id': task['id'], 'fails': [], 'sequences': 0, 'queries': 0}
     k = 0
     for seq in task['seqs']:
@@ -557,7 +567,7 @@ def run(ctx):
                                 {'program': dict(menu_progs).get(pid), 'query': q,
                                  'seed0': ref[pid][q], 'seed%d_junk%d' % (t['seed'], t['junk']):
                                  r[pid].get(q)},
-                                {'kind': 'menu', 'program': [pid, dict(menu_progs).get(pid, '')],
+                                {'kind': 'menu', 'no_confirm': True, 'program': [pid, dict(menu_progs).get(pid, '')],
                                  'seed': t['seed'], 'junk': t['junk'],
                                  'input': '%s|%s' % (pid, q)})
         if pres.skipped or ref is None:
